@@ -10,7 +10,8 @@ LEVEL = ('entry-level model of peppi::write/read (Model/Slpp.v) with tar, serde_
          'raw and JSON entries are the retained block and its rendering, the file signature is the first entry name at offset 0 of the tar bytes, unknown entries '
          'are ignored wherever they stand before frames.arrow, format versions below the minimum are rejected, the writer is a function (deterministic); the byte-level '
          'tar model predicts the real archive byte for byte from the opaque JSON/Arrow blobs (tar/serde/arrow2 themselves: exercised, not proved: partial)')
-UNKNOWN = [b'notes.txt', b'extras/thumb.png', b'zzz', b'start.jso', b'PEPPI.JSON', b'frames.arrow.bak', b'a' * 99]
+UNKNOWN = [b'notes.txt', b'extras/thumb.png', b'zzz', b'start.jso', b'PEPPI.JSON', b'frames.arrow.bak', b'a' * 99,
+           b'./', b'extras/', b'..', b'\xff\xfe.bin', b'caf\xe9/\x80', b'.']   # names without a (UTF-8) file name are unknown entries too
 
 
 def run(ctx):
